@@ -22,7 +22,9 @@ RULE = ('cases = (01) MX lists of 1..9 entries, preferences drawn from a small s
         '254..256 octets), smtproutes.d holding random subsets of the probed names plus near-miss names, file contents with relay=/port= lines, '
         'duplicates, unknown keys, rejected lines in front of valid ones, port strings at 0/1/65535/65536/2^32+25/2^64+25/signs/garbage, relays that '
         'resolve, resolve to nothing or do not resolve, control/smtproutes with exact / suffix / empty / differently-cased / non-matching patterns, '
-        '0..3 colons; (05) the statement sequence of main(): filter on port 25, sort, connect; (06) ask_dnsmx of lib/qdns.c over a stubbed resolver: '
+        '0..3 colons; (08) the same with all six keys: certificate/key paths readable or not, outgoingip / outgoingip6 values valid, malformed, of the other '
+        'family, v4-mapped in two spellings, relays that are address texts, control/clientkey.pem present or not, duplicate and unknown keys; address '
+        'literals as target (24 forms) through op 07; (05) the statement sequence of main(): filter on port 25, sort, connect; (06) ask_dnsmx of lib/qdns.c over a stubbed resolver: '
         '0..5 MX records with tied preferences, 0 and 65535, names that resolve / resolve to nothing / fail temporarily, permanently, with ENOMEM, null MX, '
         'dnsmx failing four ways; (07) getmxlist (real smtproute + ask_dnsmx) followed by the sequence of main() on configurations mixing all of the above. '
         'non-trivial = sort: at least two entries share a preference; connect: at least one failed attempt followed by another; '
@@ -49,11 +51,12 @@ ASSUMPTIONS = [
     'for the connect theorems the list is fresh: every priority <= 65536 (DNS preferences are 16 bit, implicit MX is 65536)',
     'connect()/bind()/socket() outcomes are an arbitrary oracle list; greeting/EHLO failures are connect_mx calling tryconn again (modelled as the number of calls)',
     'getifaddrs() reports the local addresses; when it fails filter_my_ips returns the list unchanged (by design of the C) and nothing is claimed',
-    'smtproute: target name at most 254 octets, free of "/" and NUL, not "." or ".."; control files are clean text; only the keys relay= and port= of '
-    'smtproutes.d files are modelled (clientcert, clientkey, outgoingip, outgoingip6 are outside); ask_dnsaaaa of the relay is an oracle table',
+    'smtproute: target name at most 254 octets, free of "/" and NUL, not "." or ".."; control files are clean text; ask_dnsaaaa of the relay is an oracle table; '
+    'access(path, R_OK) for clientcert/clientkey and the presence of control/clientkey.pem are oracles; inet_pton is the glibc 2.36 algorithm '
+    '(Model/InetPtonVal.v, value-producing twin of C14\'s validity model), tied to libc by the run',
     'the resolver (libowfat dnsmx/dnsip6 behind include/libowfatconn.h) is an oracle: MX records with 16-bit preferences in wire format, per name either addresses or '
     'a temporary / permanent / out-of-memory failure; IPv4 addresses arrive v4-mapped from dnsip6',
-    'the target is not an address literal ("[...]" branch of getmxlist is not modelled)',
+    'an address literal "[...]" as target is modelled (getmxlist_x); its entry has no name and port 25',
     'connect phase (engine mxconn): servers are scripted byte streams with close or silence at the end, OpenSSL and dnstlsa are oracles (as in C18/C04), '
     'every connection that comes about has a scripted server; the partner name is reduced to "the entry has a name"',
 ]
@@ -443,7 +446,7 @@ LEVEL_NOTE = ('Trusted: Coq kernel, translator regexes, extraction (ExtrOcamlBas
               'The connect phase is the C04/C18 model of connect_mx() composed with the tryconn model (C20_connect_*): candidates once each in order, every failure but a '
               'silent server, dup2, a local TLS problem and the pinned-host refusal moves on (those four are the known finding F-C20-5), Z4.4.2 only after all. '
               'Not covered by a theorem: the statement order of main() '
-              '(checked by the translator and repeated in the harness, main() cannot be included), the "[address]" target form, the smtproutes.d keys other than relay/port, '
+              '(checked by the translator and repeated in the harness, main() cannot be included), '
               'a whole-program Qremote run.')
 TECHNIQUE = ('Coq proofs by induction over the lists (insertion-sort invariant with a numeric key, representation invariant of the USED/CURRENT marks, '
              'fuel-bounded probe loop against the list of documented names); translator-regenerated constants; model-vs-C differential run')
